@@ -1241,3 +1241,215 @@ Lemma product_matern_self (ib1 ib2 : rvec) (cs1 cs2 mj : R) d1 (x : rvec) :
   product_kernel NumR (matern52 NumR ib1 cs1 mj) d1 (matern52 NumR ib2 cs2 mj) x x =
   ((1 + sqrt mj) * exp (- sqrt mj) * cs1) * ((1 + sqrt mj) * exp (- sqrt mj) * cs2).
 Proof. unfold product_kernel. rewrite !matern52_self. reflexivity. Qed.
+
+(* ---- kernel objects: diagonal X = diag (forward X X), and the diagonal_depends_on_X flag logic ------ *)
+(* the diagonal of one row is the kernel of the row with itself *)
+Definition DiagOK (k : kern NumR) : Prop := forall x : rvec, k_diag NumR k x = k_fwd NumR k x x.
+(* the flag is sound: "does not depend on X" means the diagonal is the same for all rows *)
+Definition FlagOK (k : kern NumR) : Prop :=
+  k_dep NumR k = false -> forall x y : rvec, k_diag NumR k x = k_diag NumR k y.
+
+Lemma kdiagonal_is_diag (k : kern NumR) (X : list rvec) : DiagOK k ->
+  forall i, (i < length X)%nat ->
+    nth i (kdiagonal NumR k X) 0 = entry (kmatrix NumR (k_fwd NumR k) X X) i i.
+Proof.
+  intros H i Hi. unfold kdiagonal, kmatrix, entry. tR.
+  rewrite (map_nth_lt _ X i [] 0 Hi).
+  rewrite (map_nth_lt _ X i [] [] Hi).
+  rewrite (map_nth_lt _ X i [] 0 Hi). apply H.
+Qed.
+
+Lemma kmatern_flag (ib : rvec) (cs jit : R) : FlagOK (kmatern NumR ib cs jit).
+Proof. intros _ x y. reflexivity. Qed.
+
+Lemma kmatern_diag0 (ib : rvec) (cs : R) : DiagOK (kmatern NumR ib cs 0).
+Proof. intros x. cbn [k_diag k_fwd kmatern]. rewrite matern52_self_nojitter. cbn [mul one NumR]. tR. lra. Qed.
+
+Lemma kproduct_ok (k1 k2 : kern NumR) d1 :
+  DiagOK k1 -> DiagOK k2 -> FlagOK k1 -> FlagOK k2 ->
+  DiagOK (kproduct NumR k1 d1 k2) /\ FlagOK (kproduct NumR k1 d1 k2).
+Proof.
+  intros D1 D2 F1 F2. split.
+  - intros x. cbn [k_diag k_fwd kproduct]. unfold product_kernel. rewrite D1, D2. reflexivity.
+  - intros Hdep x y. cbn [k_dep kproduct] in Hdep. apply Bool.orb_false_iff in Hdep as [H1 H2].
+    cbn [k_diag kproduct]. f_equal; [apply (F1 H1) | apply (F2 H2)].
+Qed.
+
+Lemma krange_ok (k : kern NumR) s l : DiagOK k -> FlagOK k ->
+  DiagOK (krange NumR k s l) /\ FlagOK (krange NumR k s l).
+Proof.
+  intros D F. split.
+  - intros x. cbn [k_diag k_fwd krange]. unfold range_kernel. apply D.
+  - intros Hdep x y. cbn [k_dep krange] in Hdep. cbn [k_diag krange]. apply (F Hdep).
+Qed.
+
+Lemma kwarped_ok (k : kern NumR) (jit : R) (bs : list (wblock NumR)) : DiagOK k -> FlagOK k ->
+  DiagOK (kwarped NumR k jit bs) /\ FlagOK (kwarped NumR k jit bs).
+Proof.
+  intros D F. split.
+  - intros x. cbn [k_diag k_fwd kwarped]. unfold warped_kernel.
+    destruct (k_dep NumR k) eqn:E.
+    + apply D.
+    + rewrite (F E x (apply_warpings NumR jit bs x)). apply D.
+  - intros Hdep x y. cbn [k_dep kwarped] in Hdep. cbn [k_diag kwarped]. rewrite Hdep. apply (F Hdep).
+Qed.
+
+Lemma kexpdecay_ok (kx : kern NumR) dx (mux : rvec -> R) (alpha mean_lam gamma delta : R) : DiagOK kx ->
+  DiagOK (kexpdecay NumR kx dx mux alpha mean_lam gamma delta) /\
+  FlagOK (kexpdecay NumR kx dx mux alpha mean_lam gamma delta).
+Proof.
+  intros D. split; [|intros Hdep; discriminate Hdep].
+  intros x. cbn [k_diag k_fwd kexpdecay]. unfold expdecay_diag, expdecay_fwd. rewrite D.
+  unfold two. cbn [add sub mul one zero NumR]. tR.
+  replace (nth dx x 0 * (1 + 1)) with (nth dx x 0 + nth dx x 0) by lra.
+  generalize (kappa NumR alpha mean_lam (nth dx x 0 + nth dx x 0)).
+  generalize (kappa NumR alpha mean_lam (nth dx x 0)).
+  generalize (k_fwd NumR kx (firstn dx x) (firstn dx x)). generalize (mux (firstn dx x)).
+  intros m kk k1 k2. ring.
+Qed.
+
+(* every kernel expression built from consistent leaves is consistent; a Matern leaf is consistent when the
+   square-root jitter is 0 (with jitter j its forward value on the diagonal is (1+sqrt j) exp(-sqrt j) times
+   its diagonal, see matern52_self) *)
+Fixpoint leaves_ok (e : kexpr NumR) : Prop :=
+  match e with
+  | KBase _ k => DiagOK k /\ FlagOK k
+  | KMat _ _ _ jit => jit = 0
+  | KProd _ a _ b => leaves_ok a /\ leaves_ok b
+  | KRange _ a _ _ => leaves_ok a
+  | KWarp _ a _ _ => leaves_ok a
+  | KExpD _ a _ _ _ _ _ _ => leaves_ok a
+  end.
+
+Lemma keval_ok (e : kexpr NumR) : leaves_ok e -> DiagOK (keval NumR e) /\ FlagOK (keval NumR e).
+Proof.
+  induction e as [k|ib cs jit|a IHa d1 b IHb|a IHa s l|a IHa jit bs|a IHa dx mu al ml ga de]; cbn [leaves_ok keval].
+  - tauto.
+  - intros ->. split; [apply kmatern_diag0 | apply kmatern_flag].
+  - intros [Ha Hb]. destruct (IHa Ha), (IHb Hb). apply kproduct_ok; assumption.
+  - intros Ha. destruct (IHa Ha). apply krange_ok; assumption.
+  - intros Ha. destruct (IHa Ha). apply kwarped_ok; assumption.
+  - intros Ha. destruct (IHa Ha). apply kexpdecay_ok; assumption.
+Qed.
+
+(* the flag logic matters: if a product reported "independent of X" as soon as ONE factor is (all instead
+   of any), wrapping it in a WarpedKernel would break diagonal = diag(forward) *)
+Lemma product_flag_all_refuted :
+  exists (k1 k2 : kern NumR) (jit : R) (bs : list (wblock NumR)) (x : rvec),
+    DiagOK k1 /\ FlagOK k1 /\ DiagOK k2 /\ FlagOK k2 /\
+    let bad := mkK NumR (k_fwd NumR (kproduct NumR k1 1 k2)) (k_diag NumR (kproduct NumR k1 1 k2))
+                   (andb (k_dep NumR k1) (k_dep NumR k2)) in
+    k_diag NumR (kwarped NumR bad jit bs) x <> k_fwd NumR (kwarped NumR bad jit bs) x x.
+Proof.
+  (* k1 = constant 1 (independent of X), k2 (u,v) = u_0 * v_0 (depends on X), warp coordinate 1 with a = b = 1 *)
+  exists (mkK NumR (fun _ _ => 1) (fun _ => 1) false).
+  exists (mkK NumR (fun u v => nth 0 u 0 * nth 0 v 0) (fun u => nth 0 u 0 * nth 0 u 0) true).
+  exists (/ 4). exists [mkW NumR 1 2 [1] [1]]. exists [0; 0].
+  split; [intros x; reflexivity|]. split; [intros _ x y; reflexivity|].
+  split; [intros x; reflexivity|]. split; [intros H; discriminate H|].
+  cbv zeta. cbn [k_diag k_fwd k_dep kwarped kproduct andb]. unfold warped_kernel, product_kernel.
+  cbn [apply_warpings fold_left warp_block warp_from warp_coord in_block w_lo w_up w_a w_b Nat.leb Nat.ltb andb
+       firstn skipn nth Nat.sub].
+  assert (E : kuma NumR (/ 4) 1 1 0 = / 4).
+  { destruct (kuma_identity (/ 4) 0) as [E _]; lra. }
+  rewrite E. cbn [mul NumR]. lra.
+Qed.
+
+(* ---- GaussianProcessRegression as a state machine (every carrier) ------------------------------------ *)
+Section ModelMachine.
+Variable N : Num.
+Variable jit : T N.
+
+(* the posterior state is the one of its data under the LIVE parameters *)
+Definition Fresh (m : gmodel N) : Prop :=
+  match gm_state N m with
+  | None => False
+  | Some (d, st) => st = gp_post N jit (gm_params N m) d
+  end.
+
+(* a fit or recompute_states step ALWAYS leaves the posterior state of the data of that step under the
+   parameters the model has after the step: whatever the previous state was (same data object or not),
+   and also when every optimiser restart failed *)
+Lemma gstep_compute_fresh (m : gmodel N) (o : gop N) (d : gdata N) :
+  op_data N o = Some d ->
+  gm_state N (gstep N jit m o) = Some (d, gp_post N jit (gm_params N (gstep N jit m o)) d).
+Proof. destruct o; simpl; intros H; try discriminate; injection H as ->; reflexivity. Qed.
+
+Lemma grun_snoc (m : gmodel N) ops o : grun N jit m (ops ++ [o]) = gstep N jit (grun N jit m ops) o.
+Proof. unfold grun. rewrite fold_left_app. reflexivity. Qed.
+
+Lemma grun_last_compute_fresh (m : gmodel N) (ops : list (gop N)) (o : gop N) (d : gdata N) :
+  op_data N o = Some d ->
+  Fresh (grun N jit m (ops ++ [o])) /\
+  gm_state N (grun N jit m (ops ++ [o])) =
+    Some (d, gp_post N jit (gm_params N (grun N jit m (ops ++ [o]))) d).
+Proof.
+  intros H. rewrite grun_snoc. pose proof (gstep_compute_fresh (grun N jit m ops) o d H) as E.
+  split; [|exact E]. unfold Fresh. rewrite E. reflexivity.
+Qed.
+
+(* a fit whose optimiser fails in every restart keeps the prepared parameters and still computes the state *)
+Lemma gfit_failed (m : gmodel N) d prepared :
+  gstep N jit m (GFit N d prepared None) = mkGM N prepared (Some (d, gp_post N jit prepared d)).
+Proof. reflexivity. Qed.
+
+(* set_params / reset_params change the parameters only; the state is then stale until the next recompute *)
+Lemma gset_keeps_state (m : gmodel N) p :
+  gm_state N (gstep N jit m (GSet N p)) = gm_state N m /\ gm_params N (gstep N jit m (GSet N p)) = p.
+Proof. split; reflexivity. Qed.
+End ModelMachine.
+
+(* over R: a Fresh model predicts the dense posterior of its data under the live parameters *)
+Lemma gp_kernel_matrix_length (ib : rvec) (cs jit : R) (X1 X2 : list rvec) :
+  length (kernel_matrix NumR ib cs jit X1 X2) = length X1.
+Proof. unfold kernel_matrix. apply map_length. Qed.
+
+Lemma gpredict_dense (jit floor : R) (m : gmodel NumR) (d : gdata NumR) (L : rmat) (P : list rvec) (Xt : list rvec) :
+  gm_state NumR m = Some (d, (L, P)) -> Fresh NumR jit m ->
+  let p := gm_params NumR m in
+  let A := gp_sysmat NumR jit p d in
+  Square A -> Symmetric A -> chol_ok A [] -> length (gd_y NumR d) = length (gd_X NumR d) ->
+  length A = length (gd_X NumR d) ->
+  forall means vars, gpredict NumR jit floor m Xt = Some (means, vars) ->
+  forall t (alpha beta : rvec), (t < length Xt)%nat ->
+    length alpha = length A -> length beta = length A ->
+    mvR A alpha = vsub NumR (gd_y NumR d) (map (fun _ => gp_mean NumR p) (gd_X NumR d)) ->
+    mvR A beta = nth t (gp_kcols NumR jit p d Xt) [] ->
+    mean_entry means t 0 = gp_mean NumR p + dotR (nth t (gp_kcols NumR jit p d Xt) []) alpha /\
+    nth t vars 0 = Rmax (gp_cs NumR p - dotR (nth t (gp_kcols NumR jit p d Xt) []) beta) floor.
+Proof.
+  intros Hst Hfresh p A Hsq Hsym Hok Hy HlA means vars Hpred t alpha beta Ht Ha Hb Halpha Hbeta.
+  unfold Fresh in Hfresh. rewrite Hst in Hfresh.
+  unfold gpredict in Hpred. rewrite Hst in Hpred. fold p in Hpred.
+  injection Hpred as Hm Hv.
+  assert (HS : StateOK L A P (map (fun y => vsub NumR y (map (fun _ => gp_mean NumR p) (gd_X NumR d))) [gd_y NumR d])).
+  { pose proof (cholesky_computations_state
+                  (kernel_matrix NumR (gp_ib NumR p) (gp_cs NumR p) jit (gd_X NumR d) (gd_X NumR d))
+                  (gp_noise NumR p) [gd_y NumR d] (map (fun _ => gp_mean NumR p) (gd_X NumR d))) as H.
+    cbv zeta in H. fold (gp_sysmat NumR jit p d) in H. fold A in H.
+    unfold gp_post in Hfresh. fold p in Hfresh. rewrite <- Hfresh in H. cbn [fst snd] in H.
+    apply H; try assumption.
+    - rewrite map_length. tR. symmetry. exact HlA.
+    - constructor; [|constructor]. tR. rewrite HlA. exact Hy. }
+  destruct HS as [Hlt [HsqL [HA [HlP HP]]]].
+  assert (HlL : length L = length A).
+  { transitivity (length (gramR L)); [symmetry; apply gram_length | f_equal; exact HA]. }
+  assert (Hkc : length (nth t (gp_kcols NumR jit p d Xt) []) = length L).
+  { unfold gp_kcols. tR. rewrite (map_nth_lt _ Xt t [] [] Ht). rewrite map_length. rewrite HlL. symmetry. exact HlA. }
+  assert (Htk : (t < length (gp_kcols NumR jit p d Xt))%nat) by (unfold gp_kcols; rewrite map_length; exact Ht).
+  split.
+  - rewrite <- Hm.
+    assert (Htm : (t < length (map (fun _ : rvec => gp_mean NumR p) Xt))%nat) by (rewrite map_length; exact Ht).
+    assert (Hj : (0 < length (map (fun y => vsub NumR y (map (fun _ : rvec => gp_mean NumR p) (gd_X NumR d)))
+                                  [gd_y NumR d]))%nat) by (simpl; lia).
+    assert (HaL : length alpha = length L) by congruence.
+    pose proof (mean_dense L A P _ (gp_kcols NumR jit p d Xt) (map (fun _ : rvec => gp_mean NumR p) Xt)
+                           (conj Hlt (conj HsqL (conj HA (conj HlP HP)))) t 0%nat alpha Htk Htm Hj Hkc HaL Halpha) as E.
+    etransitivity; [exact E|]. rewrite (map_nth_lt _ Xt t [] 0 Ht). reflexivity.
+  - rewrite <- Hv.
+    assert (Htd : (t < length (map (fun _ : rvec => (1 * gp_cs NumR p)%R) Xt))%nat) by (rewrite map_length; exact Ht).
+    assert (HbL : length beta = length L) by congruence.
+    destruct (var_dense L A (gp_kcols NumR jit p d Xt) (map (fun _ : rvec => 1 * gp_cs NumR p) Xt) floor Hlt HsqL HA
+                        t beta Htk Htd Hkc HbL Hbeta) as [_ E].
+    etransitivity; [exact E|]. rewrite (map_nth_lt _ Xt t [] 0 Ht). f_equal. f_equal. tR. lra.
+Qed.
